@@ -94,12 +94,12 @@ def block(btype, payload):
     return bytes([0x55, 0x3C, btype, len(payload)]) + payload + bytes([checksum(btype, payload), 0x55])
 
 
-def write_file(f, leader=128, blank=0, block_sizes=None, data_leader=None, prefix=b"", inter=0):
+def write_file(f, leader=128, blank=0, block_sizes=None, data_leader=None, prefix=b"", inter=0, pad=b" "):
     """Peer writer: one recording.  block_sizes: list of payload sizes (cycled) or None for 255.
     prefix: extra filler ($00/$55 in any mix) in front of the recording, e.g. leader, blank, leader."""
     out = bytearray(prefix)
     assert all(b in FILLER for b in out)
-    name = f["name"].encode("latin-1")[:8].ljust(8, b" ")
+    name = f["name"].encode("latin-1")[:8].ljust(8, pad)       # other writers pad the name field with NULs
     gap = f.get("gap", 0x00)
     head = name + bytes([f["ftype"], f["dtype"], gap, f["load"] >> 8, f["load"] & 0xFF, f["exec"] >> 8, f["exec"] & 0xFF])
     out += bytes(blank) + bytes([0x55]) * leader + block(0x00, head)
